@@ -667,7 +667,11 @@ fn transform_expr(state: &mut State<'_>, scope: &mut Scope, expr: MonoExpr) -> L
                     },
                 });
                 call_args.extend(args);
-                let func_ty = entry.ty.clone();
+                // the lifted function's own type (environment first), not the closure's
+                let func_ty = state
+                    .liftenv
+                    .get_func(apply_fn)
+                    .unwrap_or_else(|| entry.ty.clone());
                 return LiftExpr::ECall {
                     func: Box::new(LiftExpr::EVar {
                         name: apply_fn.to_string(),
